@@ -25,4 +25,6 @@ gcc -shared -fPIC -O2 -w $INC -I$S/gis $S/gis/c_hydrodiy_gis.c $S/gis/{c_grid,c_
 echo rebuilt
 EOS
 chmod +x "$d/REBUILD.sh"
+# the .so files copied from /repo/src may predate the fix: commits (they are git-ignored build output)
+"$d/REBUILD.sh" >/dev/null 2>&1 || echo "REBUILD_FAILED" >&2
 echo "$d"
